@@ -31,6 +31,12 @@ QUERIES = [
     [('agg', [('lat', ('avg', col('a')))], [(None, col('k'))]), ('where', ('cmp', 'gt', col('lat'), lit(3))), ('limit', 5)],
 ]
 MOVING = QUERIES[-4:]
+# chains of aggregations (with a filter in between) whose second-level groups come and go between refreshes
+CHAINED = MOVING[:2] + [
+    [('agg', [(None, ('count', None))], [(None, col('k')), (None, col('g'))]), ('where', ('cmp', 'lt', col('_count'), lit(3))), ('agg', [('rare', ('count', None))], [(None, col('k'))])],
+    [('agg', [(None, ('count', None))], [(None, col('k'))]), ('where', ('cmp', 'lt', col('_count'), lit(2))), ('agg', [('singles', ('count', None)), (None, ('max', col('_count')))], [])],
+    [('agg', [('hits', ('count', None))], [(None, col('k')), (None, col('s'))]), ('agg', [('m', ('max', col('hits')))], [(None, col('k'))]), ('agg', [('n', ('count', None))], [(None, col('m'))])],
+]
 
 
 def norm(line):
@@ -69,7 +75,7 @@ def run_live(ctx, queries, n):
             r['k'] = rng.choice(['a', 'b', 'c', 'dd', 'e'])
             r['s'] = rng.choice(['x', 'yy', 'zzz'])
         lines = [gen.jtext(r).encode('utf8') for r in rows]
-        h = rng.choice([5, 8, 12, 24, 40])
+        h = rng.choice([1, 2, 3, 4, 5, 8, 12, 24, 40])
         w = rng.choice([60, 80, 120, 200])
         # split the input into timed bursts: 0..k refreshes between rows, an idle gap before the first row sometimes
         sched = []
@@ -150,7 +156,7 @@ def run_live(ctx, queries, n):
                 nontrivial.add(c.query + '\0' + str(sched))
     cov = {
         'evaluations': len(items), 'distinct_nontrivial': len(nontrivial),
-        'rule': 'aggregate pipelines (incl. aggregate-of-aggregate, post-aggregate where/limit/total/sort, sort of records) on a pty of 5..40 rows x 60..200 columns, input split into timed bursts '
+        'rule': 'aggregate pipelines (incl. aggregate-of-aggregate, post-aggregate where/limit/total/sort, sort of records) on a pty of 1..40 rows x 60..200 columns, input split into timed bursts '
                 '(0..several refresh periods between bursts, idle gap before the first row, one 0.6 s idle checkpoint); the captured bytes are replayed through the extracted terminal model; '
                 'final screen and checkpoint screen compared with the table a non-terminal run prints (modulo padding, clipped to height-1); non-trivial = >= 3 frames drawn',
         'samples': [{'query': jobs[0][0].query, 'terminal': [jobs[0][2], jobs[0][3]], 'bursts': len(jobs[0][1])}],
